@@ -14,36 +14,33 @@ Xseq = z3.Function('Xseq', B64, B64, B8)
 _uf = {}
 
 
-def _funcs(wbits, nbytes):
-    key = (wbits, nbytes)
+def _funcs(state, nbytes):
+    """uninterpreted absorb / squeeze for hash states of this shape (sorts of h, buf, curlen, totbits) and data length"""
+    sorts = [x.sort() for x in state]
+    key = (tuple(str(x) for x in sorts), nbytes)
     if key not in _uf:
-        AW = z3.ArraySort(B64, z3.BitVecSort(wbits))
-        AB = z3.ArraySort(B64, B8)
-        C = z3.BitVecSort(32)
         D = z3.BitVecSort(8 * nbytes)
-        dom = [AW, AB, C, AW, D]
+        dom = sorts + [D]
+        tag = '%d_%d' % (abs(hash(key[0])) % 100000, nbytes)
         _uf[key] = {
-            'h': z3.Function('absorb_h_%d_%d' % key, *(dom + [AW])),
-            'buf': z3.Function('absorb_buf_%d_%d' % key, *(dom + [AB])),
-            'curlen': z3.Function('absorb_curlen_%d_%d' % key, *(dom + [C])),
-            'tot': z3.Function('absorb_tot_%d_%d' % key, *(dom + [AW])),
-            'squeeze': z3.Function('squeeze_%d' % wbits, AW, AB, C, AW, B64, B8),
+            'state': [z3.Function('absorb_%d_%s' % (i, tag), *(dom + [srt])) for i, srt in enumerate(sorts)],
+            'squeeze': z3.Function('squeeze_%d' % (abs(hash(key[0])) % 100000), *(sorts + [B64, B8])),
         }
     return _uf[key]
 
 
-def absorb(state, data_bytes, wbits):
+def absorb(state, data_bytes, wbits=None):
     """state = (h, buf, curlen, tot) z3 terms; data_bytes = list of BV8 -> new state tuple"""
     n = len(data_bytes)
-    f = _funcs(wbits, n)
+    f = _funcs(state, n)
     d = z3.Concat(*reversed(data_bytes)) if n > 1 else data_bytes[0]
     args = list(state) + [d]
-    return (f['h'](*args), f['buf'](*args), f['curlen'](*args), f['tot'](*args))
+    return tuple(g(*args) for g in f['state'])
 
 
-def squeeze(state, t, wbits):
-    f = _funcs(wbits, 1)
-    return f['squeeze'](state[0], state[1], state[2], state[3], t)
+def squeeze(state, t, wbits=None):
+    f = _funcs(state, 1)
+    return f['squeeze'](*(list(state) + [t]))
 
 
 def hmac_step(inner, outer, u_bytes, wbits):
